@@ -38,6 +38,8 @@ def jobs(tier):
             out.append(("e2e.%s.P%d" % (shape, P), "job_e2e", dict(shape=shape, P=P, K=K, order="symbolic", progress=0)))
     for shp in cr.scheme_shapes(["flat2", "nested3", "around3"], tier):
         out.append(("e2e.%s.P16384" % shp, "job_e2e", dict(shape=shp, P=16384, K=1 if shp.startswith("nested3") else 2, order="reversed", progress=0)))
+    out.append(("e2e.flat2.options", "job_options", dict(shape="flat2", P=16384, K=1)))
+    out.append(("e2e.single.options", "job_options", dict(shape="single", P=16384, K=2)))
     out.append(("e2e.second-create-after-nested-add", "job_second", dict(P=16384, K=2)))
     out.append(("e2e.hidden2.P16384", "job_e2e", dict(shape="hidden2", P=16384, K=2, order="reversed", progress=0)))
     out.append(("e2e.dir1.P16384", "job_e2e", dict(shape="dir1", P=16384, K=3, order="reversed", progress=0)))
@@ -124,6 +126,32 @@ def job_e2e(E, shape, P, K, order, progress, _mutants=None):
     oracle_v1(E, info, fs, "/data", sizes, Pn, shape)
     E.check(not fs.log, "C01.no-writes", "creator mutated the filesystem: %r" % (fs.log[:3],))
     _witness(E, [sizes[r] for r in SHAPES[shape]], Pn)
+
+
+def job_options(E, shape, P, K, _mutants=None):
+    """Option combinations that must not influence a v1 metafile's file list and pieces: `content` as an alias
+    of `path`, the three progress modes, `cwd`, a private flag / source / comment (info-level, but irrelevant to
+    the pieces), piece length given as exponent, as integer or as string."""
+    fs, sizes = cr.make_fs(E, shape, K, P, order="reversed", lo=1 if shape == "single" else 0)
+    if shape != "single":
+        from symx.core import disj
+        E.assume(disj(*[s > 0 for s in sizes.values()]))
+    kw = {}
+    kw["content" if E.choice("opt.content-alias", 2) else "path"] = "/data/name"
+    kw["progress"] = [0, 1, "2"][E.choice("opt.progress", 3)]
+    kw["piece_length"] = [P, "14", str(P)][E.choice("opt.plen-spelling", 3)]
+    if E.choice("opt.cwd", 2):
+        kw["cwd"] = True
+    if E.choice("opt.info-options", 2):
+        kw.update(private=True, source="src", comment="a comment")
+    E.note("kw", {k: v for k, v in kw.items()})
+    w = World(fs, mutants=_mutants)
+    try:
+        t = cr.create(w, "1", **kw)
+    except Exception as ex:  # noqa: BLE001
+        E.fail("C01.no-exception", "%s: %s (options %r)" % (type(ex).__name__, ex, kw))
+        return
+    oracle_v1(E, t.meta["info"], fs, "/data", sizes, P, shape, tag="C01.options")
 
 
 def job_second(E, P, K, _mutants=None):
@@ -224,6 +252,11 @@ def _conc_run(params, model, workdir, seed):
     kw = dict(path=root, progress=0)
     if P:
         kw["piece_length"] = P
+    if "kw" in notes:
+        kw = dict(notes["kw"])
+        for k in ("path", "content"):
+            if k in kw:
+                kw[k] = root
     try:
         t = cr.real_create("1", **kw)
     except Exception as ex:  # noqa: BLE001
